@@ -203,7 +203,17 @@ def summary_li(li: Node, path: List[str], out: List[Any]) -> None:
         stack.extend(reversed(n.elems()))
     lh = label_and_href(own_code) if own_code is not None else [li.text().strip()[:80], None, None]
     me = path + [lh[0]]
-    out.append({'path': me, 'name': lh, 'class': li.attrs.get('class', ''), 'anchor': own_anchor})
+    # links of the summary that follows the name (not the name itself, not nested entries)
+    slinks = []
+    stack2 = list(reversed(li.elems()))
+    while stack2:
+        n = stack2.pop()
+        if n.tag == 'ul' or n is own_code:
+            continue
+        if n.tag == 'a' and 'href' in n.attrs and 'internal-link' in n.classes():
+            slinks.append(n.attrs['href'])
+        stack2.extend(reversed(n.elems()))
+    out.append({'path': me, 'name': lh, 'class': li.attrs.get('class', ''), 'anchor': own_anchor, 'summary_links': slinks})
     for k in li.elems():
         if k.tag == 'ul':
             for sub in k.elems():
